@@ -30,6 +30,14 @@ OPAQUE = ["dur", "unit", "qty"]
 # plain Python builtins as field types (pydantic's coercing validators + the schema Config's
 # anystr limits). Not part of ATOMS / the Lean grammar: used by C13's oracle-only `pln` cases.
 PLAIN_ATOMS = ["pstr", "pint", "pfloat", "pbool"]
+# externally registered field types ["ext", name] (real code only, outside ATOMS / the Lean grammar): a property
+# module registers name -> (hint thunk, called in a worker; input generator (rng) -> JSON input, called in the parent).
+# Used by C12 for value schemas that are built by a custom `Parser` class (NumValue, Pixels, SIValue, user-defined).
+EXT_TYPES = {}
+
+
+def register_ext(name, hint, gen):
+    EXT_TYPES[name] = (hint, gen)
 
 
 # --------------------------------------------------------------------------- term syntax
@@ -63,6 +71,8 @@ def ty_str(ty):
         return "union(%s)" % ",".join(ty_str(t) for t in ty[1])
     if k == "model":
         return "model(%s)" % ty[1]
+    if k == "ext":
+        return "ext(%s)" % ty[1]
     raise ValueError(ty)
 
 
@@ -561,6 +571,8 @@ def to_hint(ty, ns, fwd=()):
         return real_atoms()[k]
     if k in PLAIN_ATOMS:
         return {"pstr": str, "pint": int, "pfloat": float, "pbool": bool}[k]
+    if k == "ext":
+        return EXT_TYPES[ty[1]][0]()
     if k == "lit":
         return typing.Literal[tuple(ty[1])]
     if k == "opt":
@@ -683,6 +695,8 @@ def gen_json(rng, ty, fam, depth, in_set=False):
         return [gen_json(rng, ty[1], fam, depth - 1, True) for _ in range(rng.randrange(0, 4) if depth > 0 else 0)]
     if k == "model":
         return gen_obj(rng, fam, ty[1], depth - 1)
+    if k == "ext":
+        return EXT_TYPES[ty[1]][1](rng)
     raise ValueError(ty)
 
 
